@@ -213,7 +213,7 @@ class Meta(abc.ABCMeta):
             ) from err
 
     def __iter__(cls):
-        return iter(BANK[cls].provider)
+        return iter(tuple(BANK[cls].provider))  # snapshot: other threads might be registering providers meanwhile
 
     def __repr__(cls):
         return repr(Reference(cls))
